@@ -154,3 +154,45 @@ for q in ('HoRT', 'GoRT'):
     contract(SM + '.get_' + q, P, label='verbose,references-on',
              args=dict(self=species(), T=T, verbose=Const(True), use_references=Const(True)), requires=['T > 0'],
              ensures=[('reference-slot-is-the-adjustment', 'result[5] == ' + ADJ)], cross_check=False)
+
+# ---- references measured at another temperature than 298.15 K (all at one temperature): still reproduced at that temperature ----
+def refs_at_common_T(shapes):
+    Tr = Shared('T_common', Real(200., 500.))
+    return New(RF + 'References', references=ListOf([ref(i, keys, Tr) for i, keys in enumerate(shapes)]),
+               descriptor=Const('elements'))
+
+
+for nm in ('1ref-1el', '2ref-2el'):
+    shape = SHAPES[nm]
+    n = len(shape)
+    det = "self.references[0].elements['H'] != 0" if n == 1 else \
+        "self.references[0].elements['H'] * self.references[1].elements['O'] != " \
+        "self.references[0].elements['O'] * self.references[1].elements['H']"
+    lemma('reproduces-experimental-enthalpy-at-the-references-own-temperature[%s]' % nm, P,
+          forall=dict(self=refs_at_common_T(shape)), given=[det, 'self.references[0].T_ref > 0'],
+          prove=[('T_ref-is-the-references-temperature', 'self.T_ref == self.references[0].T_ref')] +
+                [('ref%d' % i,
+                  '%s + self.get_HoRT(descriptors=self.references[%d].elements, T=self.references[%d].T_ref)'
+                  ' == self.references[%d].HoRT_ref' % (dft(i), i, i, i)) for i in range(n)])
+
+# ---- a species keeps the reference object it was given: a later refit of that object is what the species applies ------------
+contract(SM + '.__init__', P, label='keeps-the-given-reference-object',
+         args=dict(self=Fields(SM), name=Const('A'),
+                   elec_model=New('pmutt.statmech.elec:GroundStateElec', potentialenergy=Real(-30., 5.), spin=Const(0.)),
+                   elements=DictOf({'H': Real(0., 8.), 'O': Real(0., 4.)}), references=fitted(['H', 'O'])),
+         ensures=[('same-object', 'self.references is references')], cross_check=False)
+def species_sharing(refs):
+    return New(SM, name=Const('A'),
+               elec_model=New('pmutt.statmech.elec:GroundStateElec', potentialenergy=Real(-30., 5.), spin=Const(0.)),
+               elements=DictOf({'H': Real(0., 8.), 'O': Real(0., 4.)}), references=refs)
+
+
+REFS = Shared('the-users-references', fitted(['H', 'O']))
+lemma('species-built-before-a-refit-applies-the-new-offsets', P,
+      forall=dict(refs=REFS, self=species_sharing(REFS), T=T, dH=Real(-20., 20.)), given=['T > 0'],
+      prove=[('offset-edited-after-construction-is-applied',
+              "spec.util.shift_offset_then_HoRT(refs, self, 'H', dH, T) == self.get_HoRT(T=T, use_references=False)"
+              " - (refs.offset['H'] * self.elements['H'] + refs.offset['O'] * self.elements['O']) * refs.T_ref / T")])
+
+from contracts import helpers
+helpers.install(P, 'references', 'kwargs')
